@@ -773,13 +773,13 @@ class Messenger(Connection):
                         self._in_sess_func()
 
                 elif msgcls == messages.SessionTerm:
-                    if not self._in_sess:
+                    if not self._in_sess and not self._in_term:
                         raise RejectError(messages.RejectMsg.Reason.UNEXPECTED)
                     # Send a reply (if not the initiator)
                     if not self._in_term:
                         self.send_sess_term(pkt.payload.reason, True)
 
-                    self._in_term_peer = self._in_sess
+                    self._in_term_peer = True
                     self.recv_sess_term(pkt.payload.reason)
 
                 elif msgcls in (messages.Keepalive, messages.RejectMsg):
@@ -811,6 +811,10 @@ class Messenger(Connection):
                 self.send_reject(err.reason, pkt)
             except TerminateError as err:
                 self.send_sess_term(err.reason, False)
+                if msgcls == messages.SessionInit:
+                    # The negotiation failed, there is no session to use
+                    # while the termination completes
+                    self._in_sess = False
 
     def send_contact_header(self):
         ''' Send the initial Contact Header non-message.
@@ -1078,7 +1082,7 @@ class Messenger(Connection):
         :param reason: The termination reason.
         :type reason: int
         '''
-        if not self._in_sess:
+        if not self._in_sess and not self._in_term:
             raise RejectError(messages.RejectMsg.Reason.UNEXPECTED)
 
     def recv_xfer_data(self, transfer_id, flags, data, ext_items):
@@ -1558,14 +1562,14 @@ class ContactHandler(Messenger, dbus.service.Object):
 
         # work from the head of the list
         if self._tx_tmp is None:
-            if not self._in_sess:
-                # waiting for session
-                return True
             if self._in_term:
                 # no new transfers after SESS_TERM is sent
                 self._tx_cancel_pend_start()
                 self._check_sess_term()
                 return False
+            if not self._in_sess:
+                # waiting for session
+                return True
             if not self._tx_pend_start:
                 # nothing to do
                 return False
